@@ -157,7 +157,7 @@ class Shadow:
 #   ('query', pid, tq, script)             script = dict(kind, pkg, targets=[(chain, form, arg, style)])
 
 TOP = (1, 2, 3, 4)
-SUB = (5, 6)
+SUB = (5, 6, 1)      # zqn1 exists both as a top-level name and as a sub-module name
 
 
 class Gen:
@@ -247,18 +247,17 @@ class Gen:
             return False
         d, n, e = src = self.rng.choice(keys)
         d2 = self.rng.choice(list(self.sh.dirs))
-        n2 = self.rng.choice(TOP if d2 == () else SUB + (INIT,))
+        n2 = self.rng.choice(TOP if d2 == () else (SUB + (INIT,) if e == PY else SUB))
         dst = (d2, n2, e)
         if dst == src:
             return False
         tf, c = self.sh.files[src]
-        if self.regime == 'mono':
-            tf_new = self.tick()        # the harness sets the prescribed mtime after the rename
-        else:
-            tf_new = tf                 # what rename really does: the old mtime travels along
         ops = [('delete', d, n, e, self.dir_time(d))]
         if dst in self.sh.files:
             ops.append(('delete', d2, n2, e, self.dir_time(d2)))
+        # what rename really does: the old mtime travels along (adversarial regime); in the monotone
+        # regime the harness gives the file the prescribed, larger mtime right after the rename
+        tf_new = self.tick() if self.regime == 'mono' else tf
         ops.append(('write', d2, n2, e, c, tf_new, self.dir_time(d2)))
         return self.mut(('rename', src, dst), ops)
 
@@ -511,9 +510,22 @@ def _recv(fd):
     return pickle.loads(rd(n))
 
 
+PYC_DIR = os.path.join(common.VERIF, '.cache', 'c09_pyc')
+
+
+def _bytecode_env(env):
+    """/repo has no __pycache__ and ./check forbids writing one, so every helper process would
+    compile all of jedi from source (~1.5 s CPU).  Let the helpers keep their bytecode under
+    /verif/.cache instead (validated by CPython against source mtime+size as usual)."""
+    env['PYTHONPYCACHEPREFIX'] = PYC_DIR
+    env.pop('PYTHONDONTWRITEBYTECODE', None)
+    return env
+
+
 def _session_main(rfd, wfd, root, cache):
     import jedi
     jedi.settings.cache_directory = cache
+    _bytecode_env(os.environ)      # inherited by the helper this process starts
     while True:
         try:
             req = _recv(rfd)
@@ -945,12 +957,20 @@ def evaluate(ctx, hists, results):
                     stats['mutations']['(as rename)'] = stats['mutations'].get('(as rename)', 0) + 1
 
     cases = [g_case(h, d) for (h, _), d in zip(usable, decoded_all)]
-    fails, err = common.coq_failing(IMPORTS, 'check_case', cases, shard=12, timeout=COQ_TIMEOUT, defs=DEFS)
-    if err:
-        raise RuntimeError('coq evaluation failed (check_case): ' + err)
-    desc, err = common.coq_eval_N_lists(IMPORTS, 'describe_case', cases, shard=12, timeout=COQ_TIMEOUT, defs=DEFS)
-    if err:
-        raise RuntimeError('coq evaluation failed (describe_case): ' + err)
+    mono_cases = [c for (h, _), c in zip(usable, cases) if h['regime'] == 'mono']
+    from concurrent.futures import ThreadPoolExecutor
+    with ThreadPoolExecutor(3) as ex:
+        f1 = ex.submit(common.coq_failing, IMPORTS, 'check_case', cases, shard=12, timeout=COQ_TIMEOUT, defs=DEFS)
+        f2 = ex.submit(common.coq_eval_N_lists, IMPORTS, 'describe_case', cases, shard=12, timeout=COQ_TIMEOUT, defs=DEFS)
+        # the monotone histories satisfy the hypothesis of C09_fresh_under_monotone_time literally
+        f3 = ex.submit(common.coq_failing, IMPORTS, "(fun c : time * list op * list (list probe) => let '(t0, h, _) := c in monotone t0 h)",
+                       mono_cases, shard=12, timeout=COQ_TIMEOUT, defs=DEFS)
+        (fails, err), (desc, err2), (nonmono, err3) = f1.result(), f2.result(), f3.result()
+    if err or err2 or err3:
+        raise RuntimeError('coq evaluation failed: %s' % (err or err2 or err3))
+    if nonmono:
+        raise RuntimeError('generator bug: a history of the monotone regime does not satisfy `monotone`: %s' % mono_cases[nonmono[0]][:600])
+    stats['monotone_hypothesis_checked'] = len(mono_cases)
     fails = set(fails)
 
     for hi, ((hist, res), decoded) in enumerate(zip(usable, decoded_all)):
@@ -1019,8 +1039,22 @@ def merge_stats(a, b):
     return a
 
 
+def setup(ctx):
+    """Import jedi in this process (the workers, and through them all session processes, are forks
+    of it).  Import only: no Script, helper, Project or parse tree is ever created here.  The
+    grammar tables (static data parso builds from its grammar file) are loaded once for all."""
+    os.makedirs(PYC_DIR, exist_ok=True)
+    sys.pycache_prefix = PYC_DIR
+    sys.dont_write_bytecode = False
+    jedi = common.setup_jedi(os.path.join(ctx.tmp, 'cache'))
+    import parso
+    parso.load_grammar()
+    parso.load_grammar(version='%d.%d' % sys.version_info[:2])
+    return jedi
+
+
 def run(ctx):
-    common.setup_jedi(os.path.join(ctx.tmp, 'cache'))     # import only: no Script is ever created in this process
+    setup(ctx)
     ctx.proofs()
     fps = common.fingerprint(FP)
     ctx.cov['fingerprints'] = fps
@@ -1051,6 +1085,10 @@ def run(ctx):
         hists.append(gen_history(ctx.rng.randrange(1 << 40), 'mono', ctx.rng.randint(lo, hi)))
     for i in range(n_adv):
         hists.append(gen_history(ctx.rng.randrange(1 << 40), 'adv', ctx.rng.randint(lo, hi)))
+    os.makedirs(PYC_DIR, exist_ok=True)
+    import subprocess
+    subprocess.run([common.PY, '-c', 'import jedi, jedi.inference.compiled.subprocess.functions, jedi.api.environment'],
+                   env=_bytecode_env(common.jedi_env()), cwd=ctx.tmp, timeout=600)    # warm the bytecode cache once
     t = time.time()
     results = common.pmap(run_history, hists, chunksize=1, timeout=7200)
     ctx.stat('wall_histories', round(time.time() - t, 1))
@@ -1079,7 +1117,7 @@ def replay(ctx, path):
     print(json.dumps({k: v for k, v in rec.items() if k != 'history'}, indent=1, ensure_ascii=False)[:4000])
     if not hist:
         return 0
-    common.setup_jedi(os.path.join(ctx.tmp, 'cache'))
+    setup(ctx)
     res = common.pmap(run_history, [hist], chunksize=1, timeout=7200)[0]
     if 'error' in res:
         print('history failed:', res['error'], res.get('tb'))
